@@ -111,6 +111,10 @@ func (v DenseIntVector) ReverseOrder() {
   }
 }
 func (v DenseIntVector) Slice(i, j int) Vector {
+  // Go would allow to re-slice a view up to the capacity of its parent
+  if j > len(v) {
+    panic(fmt.Errorf("slice (%d:%d) out of bounds for vector of dimension %d", i, j, len(v)))
+  }
   return v[i:j]
 }
 func (v DenseIntVector) Swap(i, j int) {
@@ -170,6 +174,10 @@ func (v DenseIntVector) ConstAt(i int) ConstScalar {
   return Int{&v[i]}
 }
 func (v DenseIntVector) ConstSlice(i, j int) ConstVector {
+  // Go would allow to re-slice a view up to the capacity of its parent
+  if j > len(v) {
+    panic(fmt.Errorf("slice (%d:%d) out of bounds for vector of dimension %d", i, j, len(v)))
+  }
   return v[i:j]
 }
 func (v DenseIntVector) AsConstMatrix(n, m int) ConstMatrix {
